@@ -233,6 +233,7 @@ namespace gtry {
 		m_node->connectInput({ .node = rewire, .port = 0 }); // unconditional (largest of all paths wins)
 		m_width = BitWidth{ width };
 		m_bitAlias.clear();
+		m_msbAlias = std::nullopt; // the msb moved
 	}
 
 	void gtry::BaseBitVector::resetNode()
@@ -450,6 +451,7 @@ namespace gtry {
 			}
 
 			m_width = in.width();
+			m_msbAlias = std::nullopt; // the msb moved
 		}
 
 		m_node->connectInput(in);
